@@ -21,6 +21,7 @@ import shutil
 import subprocess
 import tempfile
 
+from . import cfgfuncs
 from . import cfgtext as ct
 from . import core, lib
 
@@ -504,6 +505,24 @@ def run(tier, seed, replay=None):
                 for _ in range(n_rand):
                     text = "\n".join(rand_line(rng, pool) for _ in range(rng.randint(1, 10)))
                     check_text(out, model, home, parse_config, loc, text, rng, xcheck, metamorphic=True, malformed=malformed)
+                # function-level ties (harness/cfgfuncs.py): every helper of the parser against its Gallina counterpart on all
+                # short token sequences over the helper's own alphabet; each differing input is then put where the
+                # property can see it (a config line / a rule value) for the locality and round-trip oracles
+                from dippy.core import config as cfgmod
+                diffs = cfgfuncs.run_ties(out, model, cfgmod, home, tier, rng)
+                embed = {"unescape": ['ask x "{}"', 'deny-mcp m "{}"'], "extract": ["ask {}", "after-mcp {}"], "anchor": ["allow {}", "deny {}"],
+                         "classify": ["allow {}", "alias {} t"], "tildes": ["allow-redirect {}", "alias {} t"], "setting": ["set {}"],
+                         "line": ["{}"]}
+                for name, inputs in diffs.items():
+                    for sx in inputs[:40]:
+                        for tpl in embed[name]:
+                            check_text(out, model, home, parse_config, loc, tpl.format(sx) + "\nallow after", rng, xcheck, metamorphic=True,
+                                       malformed=malformed)
+                        if name in ("unescape", "extract") and "\n" not in sx:
+                            check_value(out, model, home, parse_config, ("ask", "x", False, sx), xcheck)
+                            check_value(out, model, home, parse_config, ("deny", sx.strip() or "x", False, "m"), xcheck)
+                        if name == "anchor" and sx.strip() and "\n" not in sx:
+                            check_value(out, model, home, parse_config, ("allow", sx.strip(), True, None), xcheck)
                 # expanduser raises only what the model enumerates
                 for v in ["~nosuchuser/x", "~\x00", "~\ud800/x", "~\udc80", "~", "~/x", "a\x00b", "", "~root", "~root/x", "\ud800"]:
                     try:
@@ -553,6 +572,10 @@ def run(tier, seed, replay=None):
         "deletion and one malformed-line insertion; rule values: 11 directives x 26 patterns x |? x 33 messages (sampled in quick) "
         "plus random values, written by the reference writer and parsed back, singly and as files of 1-8 rules; hook: "
         "user/project/env layer each in {ok, absent, dir, dangling, loop, undecodable, mode 000 (run as nobody), EIO, "
-        "unsearchable parent, ~nosuchuser, empty} through bin/dippy-hook. distinct = distinct texts / values / layouts; "
+        "unsearchable parent, ~nosuchuser, empty} through bin/dippy-hook; function-level ties (harness/cfgfuncs.py): _unescape, "
+        "_extract_message, _strip_exact_anchor, _classify_token, _expand_pattern_tildes, _apply_setting and the one-line step of "
+        "parse_config against the Gallina functions on ALL sequences of up to 3-6 tokens over each helper's own alphabet (literals "
+        "it tests, near misses, a neutral token) plus random longer ones; differing inputs are embedded in config lines and rule "
+        "values for the locality / round-trip oracles. distinct = distinct texts / values / layouts; "
         "non-trivial = a text with a non-blank line, a value accepted by a well-formedness predicate, a layout with a broken layer")
     return out
